@@ -18,7 +18,7 @@ EXPLANATION = (
 ASSUMPTIONS = ["detail::condition_variable::wait/wait_until release and re-acquire the lock they are given (C02/C07)",
                "callers of the detail classes pass the lock that protects the semaphore (checked for the public wrappers in R6)"]
 THOROUGH_CONFIGS = [["-UNDEBUG", "-DPIKA_DEBUG"]]
-FLOORS = {"C08.R1": 14, "C08.R2": 3, "C08.R3": 2, "C08.R4": 6, "C08.R5": 4, "C08.R6": 10}
+FLOORS = {"C08.R1": 14, "C08.R2": 3, "C08.R3": 2, "C08.R4": 6, "C08.R5": 4, "C08.R6": 10, "C08.R7": 8}
 
 CS = "pika::detail::counting_semaphore"
 SS = "pika::detail::sliding_semaphore"
@@ -342,6 +342,12 @@ def run(rep, tier):
             rep.ok("C08.R6", fn, "signal_set_called releases the semaphore")
         else:
             rep.bad("C08.R6", fn, fn.loc, "no-release", "signal_set_called() does not release the semaphore: sync_wait never returns")
+
+    # ---- R7: the condition variable the semaphores park on (the same rules decide C02 / C07)
+    from .common import import_rules
+    import_rules(rep, tier, "C07", ("C07.R5",), "C08.R7",
+                 "K2/K3 (shared with C07.R5 / C02.R1-R2): detail::condition_variable hand-shake under the semaphore's lock - enqueue before releasing the lock, the wait result "
+                 "('timeout' vs 'signaled') read with the lock re-acquired, notify consumes the entry before resuming: a timed acquire that reports a timeout has not swallowed a permit's wake-up")
 
 
 def short_(q):
